@@ -12,7 +12,7 @@ from vf.engine import Violation, InvalidCase
 from vf.fixtures import check, sized_lists, wone_of
 
 PROPERTY = "C17"
-BUDGET = {"quick": 2000, "thorough": 6000}
+BUDGET = {"quick": 6000, "thorough": 18000}
 RULE = ("AGENT cases: a population that changes between timesteps and DURING timesteps (a mutating system registered AFTER the "
         "collector, so only the collector's default priority -1 makes it observe the state the timestep's systems leave; variant "
         "with an explicit higher priority), per-agent function returning the agent's value (incl. 0) or nothing, composite "
@@ -98,21 +98,41 @@ def run_agent(case):
     model = w.model
     win = case.get("window") or {"start": 0, "end": None, "freq": 1}
     comp_kind = case.get("composite", "absent")
+    shared = {}                 # "shared": the composite function keeps ONE dict, refreshes it on every call and returns it
+
+    def refresh(agents):
+        shared["n"] = len(agents)
+        return shared
     comp = {"absent": None, "none": lambda agents: None, "empty": lambda agents: {},
-            "count": lambda agents: {"n": len(agents)}}[comp_kind]
+            "count": lambda agents: {"n": len(agents)}, "shared": refresh}[comp_kind]
     kw = {"start": int(win["start"]), "frequency": max(1, int(win["freq"]))}
     if win.get("end") is not None:
         kw["end"] = int(win["end"])
     explicit = case.get("prio") == "explicit-high"
     if explicit:
         kw["priority"] = 5
-    coll = AgentCollector(model, agent_value, compositeFunc=comp, includeTimstep=bool(case.get("include_ts")), **kw)
+    if case.get("positional"):      # the documented parameter order: model, agentFunc, compositeFunc, includeTimstep, id, priority, frequency, start[, end]
+        coll = AgentCollector(model, agent_value, comp, bool(case.get("include_ts")), "AgentCollector", kw.get("priority", -1), kw["frequency"],
+                              kw["start"], *([kw["end"]] if "end" in kw else []))
+    else:
+        coll = AgentCollector(model, agent_value, compositeFunc=comp, includeTimstep=bool(case.get("include_ts")), **kw)
     model.systems.add_system(coll)                      # registered BEFORE the mutating system
     model.systems.add_system(Mutator(model, w))
     w.apply(case.get("init", []))
     expected = []
     frozen = []
     steps = max(1, min(int(case.get("steps", 3)), 14))
+    model2 = None
+    if steps % 2:
+        # a second model with its own AgentCollector (same id) and agents with the SAME ids but other values, stepped alongside:
+        # collectors are independent of each other
+        model2 = Model()
+        coll2 = AgentCollector(model2, agent_value)
+        model2.systems.add_system(coll2)
+        for i in range(3):
+            a2 = Agent(f"p{i}", model2)
+            a2.add_component(Val(a2, model2, 900 + i))
+            model2.environment.add_agent(a2)
     between = case.get("between") or {}
     yielding_nothing = False
     during_change = False
@@ -122,6 +142,8 @@ def run_agent(case):
             seen = dict(w.pop)                 # runs before the mutator
         # mutator's effect is modelled by replaying its ops on the reference population: AWorld.apply does both at once,
         # so compute the expectation after the step from w.pop (default priority) or from `seen` (explicit priority)
+        if model2 is not None:
+            model2.execute()
         model.execute()
         if w.during.get(t):
             during_change = True
@@ -135,7 +157,7 @@ def run_agent(case):
                     rec[aid] = v
                 else:
                     yielding_nothing = True
-            if comp_kind == "count":
+            if comp_kind in ("count", "shared"):
                 rec["n"] = len(view)
             if rec:
                 expected.append(rec)
@@ -152,6 +174,10 @@ def run_agent(case):
         frozen = copy.deepcopy(got)
     nondefault = int(win["start"]) != 0 or win.get("end") is not None or int(win["freq"]) != 1
     labels = ["agent", f"composite-{comp_kind}", "prio-explicit" if explicit else "prio-default"]
+    if model2 is not None:
+        labels.append("second-collector-alive")
+        if coll2.records != [{"p0": 900, "p1": 901, "p2": 902}] * steps:
+            raise Violation("other-collector-disturbed", f"a second model's collector (agents p0..p2 worth 900..902, {steps} timesteps) holds {coll2.records[-3:]}")
     if nondefault:
         labels.append("window")
     if during_change:
@@ -174,6 +200,14 @@ class StrCollector(FileCollector):
         self.records.extend(items)
 
 
+class OwnWriter(StrCollector):
+    """the documented way of customising a file collector: collect() AND write_records() are overridden (no super call)"""
+
+    def write_records(self):
+        with open(self.filename, self.filemode) as fh:
+            fh.write("".join(self.records))
+
+
 def run_file(case):
     model = Model()
     win = case.get("window") or {"start": 0, "end": None, "freq": 1}
@@ -194,9 +228,23 @@ def run_file(case):
             raise InvalidCase("filemode")
         if fm != "a":
             kw["filemode"] = fm                     # other spellings of text append mode
-        coll = StrCollector("fc", model, path, write_count=wc, ks=case.get("ks") or [1], sink=collected, **kw)
+        if case.get("positional") and "filemode" not in kw:
+            # id, model, filename, priority, frequency, start, end, filemode, write_count - all in their documented positions
+            coll = (OwnWriter if case.get("own_writer") else StrCollector)("fc", model, path, -1, kw["frequency"], kw["start"], kw.get("end", MAXSIZE), "a", wc,
+                                                                           ks=case.get("ks") or [1], sink=collected)
+        else:
+            coll = (OwnWriter if case.get("own_writer") else StrCollector)("fc", model, path, write_count=wc, ks=case.get("ks") or [1], sink=collected, **kw)
         model.systems.add_system(coll)
+        model2 = None
+        if steps % 2:
+            # a second model with a file collector of the same id writing ANOTHER file after every collection
+            model2 = Model()
+            sink2 = []
+            path2 = os.path.join(tmp, "other.txt")
+            model2.systems.add_system(StrCollector("fc", model2, path2, write_count=0, ks=[2], sink=sink2))
         for t in range(steps):
+            if model2 is not None:
+                model2.execute()
             if t in outage and os.path.isdir(sub):
                 os.rename(sub, sub + ".away")
             elif t not in outage and not os.path.isdir(sub):
@@ -225,12 +273,19 @@ def run_file(case):
             if disk != want_disk and not had_outage:        # after a failed flush the schedule is the collector's business; conservation is not
                 raise Violation("flush-schedule", f"after timestep {t} (collection {c}, write_count {wc}): on disk {disk!r}, a whole-flush "
                                                   f"prefix of {flushed} collections is {want_disk!r}")
+        if model2 is not None:
+            with open(path2) as fh:
+                text2 = fh.read()
+            want2 = "".join(f"<{i}.0><{i}.1>" for i in range(steps))
+            if text2 != want2 or model2.systems["fc"].records:
+                raise Violation("other-collector-disturbed", f"a second file collector (2 records per timestep, flushed every time, {steps} timesteps) "
+                                                             f"wrote {text2[-40:]!r} and holds {model2.systems['fc'].records[-3:]}")
     c = len(collected)
     cycles = c // (wc + 1)
     empty_inside = any(len(items) == 0 for items in collected[:cycles * (wc + 1)])
     biggest = max((sum(len(i) for i in collected[j:j + wc + 1]) for j in range(0, cycles * (wc + 1), wc + 1)), default=0)
     return {"nontrivial": cycles >= 2 and wc >= 1 and empty_inside,
-            "labels": (["flush-failed-and-recovered"] if had_outage else []) + ["file", f"wc{min(wc, 3)}{'+' if wc >= 3 else ''}"] + (["flush>=64-records"] if biggest >= 64 else [])}
+            "labels": (["flush-failed-and-recovered"] if had_outage else []) + (["write_records-overridden"] if case.get("own_writer") else []) + ["file", f"wc{min(wc, 3)}{'+' if wc >= 3 else ''}"] + (["flush>=64-records"] if biggest >= 64 else [])}
 
 
 def run_case(case):
@@ -254,12 +309,13 @@ def strategy(tier):
     sched = st.dictionaries(st.integers(0, 9).map(str), st.lists(pop_op, min_size=1, max_size=3), max_size=5)
     agent = st.fixed_dictionaries({
         "kind": st.just("agent"), "init": st.lists(st.builds(lambda v: {"op": "join", "val": v}, val), max_size=4),
-        "between": sched, "during": sched, "composite": st.sampled_from(["absent", "absent", "none", "empty", "count"]),
+        "between": sched, "during": sched, "composite": st.sampled_from(["absent", "absent", "none", "empty", "count", "shared", "shared"]),
         "include_ts": st.booleans(), "window": win, "prio": st.sampled_from(["default", "default", "default", "explicit-high"]),
-        "steps": st.integers(1, 12)})
+        "steps": st.integers(1, 12), "positional": st.sampled_from([False, False, True])})
     filec = st.fixed_dictionaries({
         "kind": st.just("file"), "ks": st.lists(st.integers(0, 3), min_size=1, max_size=8), "write_count": st.integers(0, 5),
         "window": win, "steps": st.integers(1, 25), "filemode": st.sampled_from(["a", "a", "a", "at", "a+", "ta"]),
+        "own_writer": st.sampled_from([False, False, True]), "positional": st.sampled_from([False, False, True]),
         "outage": st.one_of(st.just([]), st.just([]), st.lists(st.integers(0, 12), max_size=4))})
     from vf.fixtures import near_pow2
     # flushes of dozens of records: block-wise writing only differs from a plain loop at / beyond a block size
